@@ -35,8 +35,6 @@ type vHandle struct {
 	closed bool
 }
 
-type vCrash struct{}
-
 var (
 	vfsFiles []*vFile
 	vfsMut   int  // number of mutation points passed
@@ -554,3 +552,59 @@ func vSnowGenerate(n *snowflake.Node) snowflake.ID {
 	s.time = now
 	return snowflake.ID(now<<22 | s.node<<12 | s.step)
 }
+
+// ---- crash / power-loss control used by the scenario harnesses (engine side) ----
+
+func vArm()    { vfsArmed = true }
+func vDisarm() { vfsArmed = false }
+func vArmFault() {
+	vfsFault, vfsFaulted = true, false
+}
+func vDisarmFault() bool {
+	f := vfsFaulted
+	vfsFault = false
+	return f
+}
+func vPowerLossMode(on bool) { vfsPowerLoss = on }
+
+// vPowerFail turns the crash into a power loss: every file independently either keeps its current
+// content or reverts to its content at its last sync (files never synced may vanish, unsynced removals
+// may be undone).
+func vPowerFail(dir string) {
+	for _, f := range vfsFiles {
+		if f.isDir || len(f.name) <= len(dir) || f.name[:len(dir)+1] != dir+"/" {
+			continue
+		}
+		if f.exists == f.dexists && len(f.data) == len(f.ddata) {
+			if eq := vEqBytes(f.data, f.ddata); vIsConcrete(eq) && eq {
+				continue // nothing unsynced
+			}
+		}
+		if vChoose(2) == 1 {
+			f.data = append([]byte{}, f.ddata...)
+			f.exists = f.dexists
+		}
+	}
+}
+
+
+// vImageSave records the directory image (evaluated under the solver's model) so that a native replay
+// can be run on the same bytes.
+func vImageSave(dir string) {
+	for _, f := range vfsFiles {
+		if len(f.name) <= len(dir) || f.name[:len(dir)+1] != dir+"/" || !f.exists {
+			continue
+		}
+		rel := f.name[len(dir):]
+		if f.isDir {
+			vObserveInt("imgdir:"+rel, 1)
+		} else {
+			vObserveBytes("img:"+rel, f.data)
+		}
+	}
+}
+
+func vImageLoad(dir string)        {}
+func vPredictedInt(tag string) int { return 0 }
+
+func vSetMsMode(m int) { vMsMode = m }
